@@ -253,3 +253,59 @@ fn c36_two_files_two_types_each_sorted() {
     if and_v != 0 { assert!(out[0].ptype == 0xc0000002 && out[0].data == and_v, "AND-class fold wrong or output unsorted"); }
     if or_v != 0 { assert!(out[n - 1].ptype == 0xc0008002 && out[n - 1].data == or_v, "OR-class fold wrong or output unsorted"); }
 }
+
+// ---- three input files, fixed shapes ----
+fn three_files(f0: &[(u32, u32)], f1: &[(u32, u32)], f2: &[(u32, u32)]) -> Vec<GnuProperty> {
+    let fs = [f0, f1, f2];
+    let mut vs: [Vec<GnuProperty>; 3] = [Vec::with_capacity(2), Vec::with_capacity(2), Vec::with_capacity(2)];
+    let mut n = 0;
+    while n < 3 {
+        let mut i = 0;
+        while i < fs[n].len() { vs[n].push(GnuProperty { ptype: fs[n][i].0, data: fs[n][i].1 }); i += 1; }
+        n += 1;
+    }
+    let [v0, v1, v2] = vs;
+    let states = [
+        ObjectLayoutStateExt { gnu_property_notes: v0, _p: core::marker::PhantomData },
+        ObjectLayoutStateExt { gnu_property_notes: v1, _p: core::marker::PhantomData },
+        ObjectLayoutStateExt { gnu_property_notes: v2, _p: core::marker::PhantomData },
+    ];
+    match merge_gnu_property_notes(states.iter(), None) {
+        Ok(o) => o,
+        Err(_) => { assert!(false, "classified types must merge"); Vec::new() }
+    }
+}
+
+macro_rules! three_files_all_carry {
+    ($name:ident, $t:expr, $class:expr) => {
+        #[kani::proof]
+        #[kani::unwind(5)]
+        fn $name() {
+            let d0: u32 = kani::any();
+            let d1: u32 = kani::any();
+            let d2: u32 = kani::any();
+            let out = three_files(&[($t, d0)], &[($t, d1)], &[($t, d2)]);
+            check_single(&out, $t, expect_two($class, Some(d0), Some(d1), d0 & d1 & d2, d0 | d1 | d2));
+        }
+    };
+}
+three_files_all_carry!(c36_three_files_all_carry_and_class, 0xc0000002, 0);
+three_files_all_carry!(c36_three_files_all_carry_or_class, 0xc0008002, 1);
+three_files_all_carry!(c36_three_files_all_carry_or_and_class, 0xc0010002, 2);
+
+// the MIDDLE file lacks the type: absent from one input of three
+macro_rules! three_files_middle_lacks {
+    ($name:ident, $t:expr, $class:expr) => {
+        #[kani::proof]
+        #[kani::unwind(5)]
+        fn $name() {
+            let d0: u32 = kani::any();
+            let d2: u32 = kani::any();
+            let out = three_files(&[($t, d0)], &[], &[($t, d2)]);
+            check_single(&out, $t, expect_two($class, Some(d0), None, d0 & d2, d0 | d2));
+        }
+    };
+}
+three_files_middle_lacks!(c36_three_files_middle_lacks_and_class, 0xc0000002, 0);
+three_files_middle_lacks!(c36_three_files_middle_lacks_or_class, 0xc0008002, 1);
+three_files_middle_lacks!(c36_three_files_middle_lacks_or_and_class, 0xc0010002, 2);
